@@ -31,6 +31,127 @@ func runC11(r *Report) {
 	c11R4(r)
 	c11R5(r)
 	c11R6(r)
+	c11R7(r)
+}
+
+// R7 (from round-2 seeded changes): three small arithmetic/identity disciplines behind what is sent.
+// (a) bitmap.New(n) is handed piece counts and must allocate ceil(n/8) bytes: the forms n>>3 + 1 and n/8 + 1 are one
+//     byte too long whenever n is a multiple of 8, and peer.Run only ever extends the advertised bitfield.
+// (b) the torrent length is a 64-bit quantity: where it is narrowed to 32 bits the operand must already be a
+//     quotient, remainder, shift or mask (bounded by the geometry checks), never the raw length — `uint32(l)/ChunkSize`
+//     gives every block beyond 4 GiB the final block's length.
+// (c) the identity of a PEX entry is its address: pex.Find compares addresses only; comparing whole entries (with
+//     their flags) makes departures unmatched and changed flags a second announcement.
+func c11R7(r *Report) {
+	p := r.P
+	// (a)
+	if nf := p.Func("bitmap", "New"); r.Anchor("R7", "bitmap.New", nf != nil) {
+		r.Fn(nf)
+		n := 0
+		allInstrs(nf, func(in ssa.Instruction) {
+			ms, ok := in.(*ssa.MakeSlice)
+			if !ok {
+				return
+			}
+			n++
+			prm := nf.Params[0]
+			bad := ""
+			// (x>>3)+c or x/8+c with c >= 1 directly on the parameter
+			base, c := splitAddConst(stripIntConv(ms.Len))
+			if bo, ok := stripIntConv(base).(*ssa.BinOp); ok && c >= 1 {
+				k, okk := constInt(bo.Y)
+				if stripIntConv(bo.X) == ssa.Value(prm) && okk && ((bo.Op == token.SHR && k == 3) || (bo.Op == token.QUO && k == 8)) {
+					bad = exprStr(ms.Len)
+				}
+			}
+			r.Check(bad == "", "R7", "bitmap.New/ceil-bytes", ms.Pos(), "bitmap.New does not round a bit count up by always adding a byte",
+				"bitmap.New allocates "+bad+" bytes for n bits: one byte too many whenever n is a multiple of 8 — the Bitfield advertised for such a piece count is longer than ceil(pieces/8) and a strict peer disconnects")
+		})
+		r.Sentinel("R7.new", n, 1)
+	}
+	// (b)
+	{
+		lengthF := p.Func("tor/piece", "Pieces.Length")
+		n := 0
+		if r.Anchor("R7", "piece.(*Pieces).Length", lengthF != nil) {
+			for _, f := range p.SrcFuncs() {
+				if pk := relPkg(f); pk != "peer" && pk != "tor" {
+					continue
+				}
+				allInstrs(f, func(in ssa.Instruction) {
+					cv, ok := in.(*ssa.Convert)
+					if !ok || !isInteger(cv.Type()) || !isInteger(cv.X.Type()) || intBits(cv.Type()) >= intBits(cv.X.Type()) || intBits(cv.Type()) > 32 {
+						return
+					}
+					isLen := func(v ssa.Value) bool {
+						c, ok := v.(*ssa.Call)
+						return ok && c.Call.StaticCallee() == lengthF
+					}
+					// the operand itself (through +, - and widening) is the length; a quotient/remainder/shift/mask of it is fine
+					var raw func(v ssa.Value, d int) bool
+					raw = func(v ssa.Value, d int) bool {
+						if d > 4 {
+							return false
+						}
+						v = stripIntConv(v)
+						if isLen(v) {
+							return true
+						}
+						if bo, ok := v.(*ssa.BinOp); ok && (bo.Op == token.ADD || bo.Op == token.SUB) {
+							return raw(bo.X, d+1) || raw(bo.Y, d+1)
+						}
+						if ph, ok := v.(*ssa.Phi); ok {
+							for _, e := range ph.Edges {
+								if raw(e, d+1) {
+									return true
+								}
+							}
+						}
+						return false
+					}
+					if !mentions(cv.X, isLen, 0) {
+						return
+					}
+					n++
+					r.Fn(f)
+					r.Check(!raw(cv.X, 0), "R7", fname(f)+"/length-narrowed-after-division", cv.Pos(), "the torrent length is divided or reduced before it is narrowed to 32 bits",
+						"the 64-bit torrent length is converted to "+cv.Type().String()+" before it is divided ("+exprStr(cv)+"): for torrents of 4 GiB and more the high bits are lost, and every block beyond (length mod 2^32) is requested with the final block's length")
+				})
+			}
+		}
+		r.Sentinel("R7.narrow", n, 1)
+	}
+	// (c)
+	if ff := p.Func("pex", "Find"); r.Anchor("R7", "pex.Find", ff != nil) {
+		r.Fn(ff)
+		addrCmp, whole := false, ""
+		var fs []*ssa.Function
+		fs = append(fs, ff)
+		fs = append(fs, ff.AnonFuncs...)
+		for _, f := range fs {
+			allInstrs(f, func(in ssa.Instruction) {
+				switch x := in.(type) {
+				case *ssa.BinOp:
+					if x.Op == token.EQL || x.Op == token.NEQ {
+						fx, _ := loadedFieldAny(x.X)
+						fy, _ := loadedFieldAny(x.Y)
+						if fx != nil && fy != nil && fx.Name() == "Addr" && fy.Name() == "Addr" {
+							addrCmp = true
+						}
+						if n := namedOf(x.X.Type()); n != nil && n.Obj().Name() == "Peer" && n.Obj().Pkg() != nil && strings.HasSuffix(n.Obj().Pkg().Path(), "/pex") {
+							whole = "== on whole entries"
+						}
+					}
+				case *ssa.Call:
+					if pk, nm := calleePkgName(x); pk == "slices" && (nm == "Index" || nm == "Contains") {
+						whole = "slices." + nm + " on whole entries"
+					}
+				}
+			})
+		}
+		r.Check(addrCmp && whole == "", "R7", "pex.Find/identity-is-address", ff.Pos(), "a PEX entry is found by its address alone",
+			"pex.Find no longer compares addresses only ("+whole+"): an entry's flags take part in its identity, so a departure (sent with zero flags) does not match the entry that was announced and is never reported, and a peer whose flags changed is announced a second time")
+	}
 }
 
 func writesOf(f *ssa.Function, typ string) []*ssa.Call {
